@@ -483,3 +483,17 @@ def list_build(root):
             else:
                 res[rel] = ('f', hashlib.sha1(open(p, 'rb').read()).hexdigest())
     return res
+
+
+def task_order(ctx, stdout):
+    """Names of the registered prepare tasks, in order, read from the real binary's output."""
+    msgs = {m: n for n, m in ctx.tables().get('TaskMsg', {}).items()}
+    res = []
+    for l in stdout.split('\n'):
+        l = ANSI.sub('', l).strip()
+        if 'Build tasks:' in l:
+            break
+        m = re.sub(r'^[^A-Za-z]*', '', l)
+        if m in msgs and msgs[m] not in res:
+            res.append(msgs[m])
+    return res
